@@ -130,6 +130,18 @@ double GoldenSectionSearch::doStep()
 
 /******************************************************************************/
 
+double GoldenSectionSearch::optimize()
+{
+  AbstractOptimizer::optimize();
+  // Report the best of the two inner points (not the last one evaluated, which may be the worse)
+  // and leave the function there:
+  getParameter_(0).setValue(f1 < f2 ? x1 : x2);
+  currentValue_ = getFunction()->f(getParameters());
+  return currentValue_;
+}
+
+/******************************************************************************/
+
 double GoldenSectionSearch::getFunctionValue() const
 {
   if (!hasFunction())
